@@ -158,6 +158,25 @@ theorem mixture_logsumexp (k : Nat) (w m : Fin k → ℝ) (hw : ∀ j, 0 < w j) 
       rw [sub_eq_add_neg, Real.exp_add, Real.exp_log (hw _)]
   rw [this, List.sum_ofFn]
 
+/-- terms that tie: a mixture that lists one and the same component `k` times with equal weights is
+    that component - however many terms share the maximum of the log-sum-exp -/
+theorem mixture_of_copies (k : Nat) (hk : 0 < k) (m : ℝ) :
+    Dist.mixtureMisfit Real.exp Real.log 0 (List.ofFn (fun _ : Fin k => (1 : ℝ) / k)) (List.ofFn (fun _ : Fin k => m)) = m := by
+  have hk' : (0 : ℝ) < k := Nat.cast_pos.mpr hk
+  rw [mixture_logsumexp k (fun _ => (1 : ℝ) / k) (fun _ => m) (fun _ => by positivity)]
+  rw [Finset.sum_const, Finset.card_univ, Fintype.card_fin, nsmul_eq_mul]
+  have : (k : ℝ) * (1 / (k : ℝ) * Real.exp (-m)) = Real.exp (-m) := by field_simp
+  rw [this, Real.log_exp]; ring
+
+/-- a symmetric pair on its symmetry plane (equal component misfits, weights ½ and ½) -/
+theorem mixture_symmetric_pair (m : ℝ) :
+    Dist.mixtureMisfit Real.exp Real.log 0 (List.ofFn ![(1 : ℝ) / 2, 1 / 2]) (List.ofFn ![m, m]) = m := by
+  rw [mixture_logsumexp 2 ![(1 : ℝ) / 2, 1 / 2] ![m, m] (fun j => by fin_cases j <;> simp)]
+  rw [Fin.sum_univ_two]
+  simp only [Matrix.cons_val_zero, Matrix.cons_val_one]
+  have : (1 : ℝ) / 2 * Real.exp (-m) + 1 / 2 * Real.exp (-m) = Real.exp (-m) := by ring
+  rw [this, Real.log_exp]; ring
+
 /-- the shifted (log-sum-exp) form the code evaluates is the same number for every shift -/
 theorem mixture_shift_invariant (k : Nat) [NeZero k] (w m : Fin k → ℝ) (c : ℝ) :
     Dist.mixtureMisfitShift Real.exp Real.log 0 c (List.ofFn w) (List.ofFn m)
